@@ -462,6 +462,21 @@ func (c *Ctx) loadField(s *State, base Term, structT types.Type, field int) Valu
 func (c *Ctx) storeField(s *State, base Term, structT types.Type, field int, v Value) {
 	st := structT.Underlying().(*types.Struct)
 	ft := st.Field(field).Type()
+	if sc, ok := v.(Sc); ok && c.scout == 0 {
+		if ci, ok := c.eng.closures[sc.T.S]; ok {
+			fieldKey := shortTypeKey(structT) + "." + st.Field(field).Name()
+			if ffc := c.eng.contracts.funcs[fieldKey]; ffc != nil && ffc.AcquiresLevel > 0 {
+				cfc := c.eng.contracts.funcs[qualFnName(ci.fn)]
+				lvl := 0
+				if cfc != nil {
+					lvl = cfc.AcquiresLevel
+				}
+				c.structural(cfc != nil && (lvl == 0 || lvl >= ffc.AcquiresLevel) && cfc.AcquiresLevelDeclared, "locklevel",
+					fmt.Sprintf("%s/closure-into:%s:%s", c.key, fieldKey, qualFnName(ci.fn)), "",
+					fmt.Sprintf("closure %s (acquires-level %d) stored in %s whose contract allows locks of level >= %d", qualFnName(ci.fn), lvl, fieldKey, ffc.AcquiresLevel), []string{"C13"})
+			}
+		}
+	}
 	if _, ok := isStructType(ft); ok {
 		c.storeAt(s, c.subRef(s, base, structT, field), ft, v)
 		return
